@@ -1254,6 +1254,16 @@ def lookup_results_tested_for_none(ctx, rel, rule, min_sites=0):
     statement about the VALUE (index 0, an empty string, an empty list are found and falsy)"""
     s = ctx.src(rel)
     n = 0
+    # module-level functions with an explicit `return None` next to a return of something that is not a constant: their answer is an
+    # optional value whose falsy instances (an empty name, index 0) are found values
+    optional_funcs = set()
+    for q0, f0 in s.funcs.items():
+        if "." in q0:
+            continue
+        rets0 = [r.value for r in ast.walk(f0) if isinstance(r, ast.Return)]
+        if any(isinstance(v, ast.Constant) and v.value is None for v in rets0 if v is not None) \
+                and any(v is not None and not isinstance(v, ast.Constant) for v in rets0):
+            optional_funcs.add(q0)
     for q, f in s.funcs.items():
         if any(q != q2 and q.startswith(q2 + ".") for q2 in s.funcs):
             continue
@@ -1265,6 +1275,8 @@ def lookup_results_tested_for_none(ctx, rel, rule, min_sites=0):
                 binds.setdefault(st.id, [])
 
         def plain_get(v):
+            if isinstance(v, ast.Call) and isinstance(v.func, ast.Name) and v.func.id in optional_funcs:
+                return True         # a function of the module that answers None for "there is none" and the thing itself otherwise
             return isinstance(v, ast.Call) and isinstance(v.func, ast.Attribute) and v.func.attr == "get" and not v.keywords \
                 and (len(v.args) == 1 or len(v.args) == 2 and isinstance(v.args[1], ast.Constant) and v.args[1].value is None)
         stores = {}
